@@ -18,6 +18,8 @@ fn usage() -> ! {
 
 const RULE: &str = "one evaluation = one seeded simulated run (fresh host, generated schedule of 20-80 operations with faults, quiescent tail); distinct_nontrivial = number of distinct (abstract model state hash, operation kind) pairs in which an operation relevant to this property was judged against the reference model, union over all runs";
 
+const RULE_MATRIX: &str = "one evaluation = one seeded simulated run in one of the worlds serving this property, with the operation mix biased to the entry points the property lists and to authorisation faults (F7: former holder, other role, counterparty/beneficiary, owner, stranger, nobody, right principal for other arguments, root-only coverage of a nested tree); the entry point x principal matrix is in coverage.faults_fired (refused cells) and coverage.outcomes (accepted cells); distinct_nontrivial = distinct (abstract model state hash, entry point) pairs judged";
+
 struct Plan {
     quick: u64,
     thorough: u64,
@@ -65,6 +67,29 @@ fn check(prop: &'static str, tier: &str, runs_override: Option<u64>) -> i32 {
         }
         "C04" | "C05" | "C11" | "C18" => {
             run::<worlds::i::WorldI>(&mut agg, prop, n(Plan { quick: 1500, thorough: 100_000 }), thorough, &known, cap);
+            rule = RULE;
+        }
+        "C06" => {
+            let k = |q: u64, t: u64| runs_override.unwrap_or(if thorough { t } else { q });
+            run::<worlds::g::WorldG>(&mut agg, prop, k(800, 40_000), thorough, &known, cap / 6);
+            run::<worlds::t::WorldT>(&mut agg, prop, k(800, 40_000), thorough, &known, cap / 6);
+            run::<worlds::s::WorldS>(&mut agg, prop, k(800, 40_000), thorough, &known, cap / 6);
+            run::<worlds::o::WorldO>(&mut agg, prop, k(800, 40_000), thorough, &known, cap / 6);
+            run::<worlds::i::WorldI>(&mut agg, prop, k(500, 20_000), thorough, &known, cap / 6);
+            run::<worlds::u::WorldU>(&mut agg, prop, k(800, 40_000), thorough, &known, cap / 6);
+            rule = RULE_MATRIX;
+        }
+        "C07" => {
+            let k = |q: u64, t: u64| runs_override.unwrap_or(if thorough { t } else { q });
+            run::<worlds::t::WorldT>(&mut agg, prop, k(1000, 50_000), thorough, &known, cap / 5);
+            run::<worlds::s::WorldS>(&mut agg, prop, k(800, 40_000), thorough, &known, cap / 5);
+            run::<worlds::g::WorldG>(&mut agg, prop, k(800, 40_000), thorough, &known, cap / 5);
+            run::<worlds::o::WorldO>(&mut agg, prop, k(800, 40_000), thorough, &known, cap / 5);
+            run::<worlds::i::WorldI>(&mut agg, prop, k(600, 25_000), thorough, &known, cap / 5);
+            rule = RULE_MATRIX;
+        }
+        "C15" => {
+            run::<worlds::u::WorldU>(&mut agg, prop, n(Plan { quick: 1500, thorough: 100_000 }), thorough, &known, cap);
             rule = RULE;
         }
         "C14" => {
@@ -124,6 +149,7 @@ fn replay(path: &str) -> i32 {
         "S" => engine::replay::<worlds::s::WorldS>(&rf, &known),
         "I" => engine::replay::<worlds::i::WorldI>(&rf, &known),
         "C" => engine::replay::<worlds::c::WorldC>(&rf, &known),
+        "U" => engine::replay::<worlds::u::WorldU>(&rf, &known),
         "O" => engine::replay::<worlds::o::WorldO>(&rf, &known),
         w => {
             eprintln!("harness error: unknown world {}", w);
